@@ -224,6 +224,7 @@ struct Case {
     n: usize,
     timeout: u64,
     prompt: bool,
+    limit: Option<usize>, // max_concurrent_connections, when the case sets one (then `wq=` is reported)
     driver: Option<WorkerDriver>,
     accept: Option<AcceptHandle>,
     stop: Option<StopHandle>,
@@ -262,6 +263,10 @@ impl Case {
         let n = kv(ws, "n").and_then(num).unwrap_or(1);
         let timeout = kv(ws, "timeout").and_then(num).unwrap_or(0) as u64;
         let prompt = kv(ws, "prompt") == Some("1");
+        let limit = match kv(ws, "limit") {
+            None => None,
+            Some(l) => Some(num(l).filter(|l| *l >= 1 && *l <= 1000)?),
+        };
         let shared = Rc::new(RefCell::new(Shared::default()));
         let mut factories: Vec<Rc<dyn VerifFactory>> = vec![];
         let mut initial: Vec<Box<dyn VerifService>> = vec![];
@@ -280,7 +285,7 @@ impl Case {
         })
         .ok()?;
         let wh = wh?;
-        let (driver, accept, stop) = WorkerDriver::new(0, &wh, 1_000_000, Duration::from_millis(timeout), factories, initial);
+        let (driver, accept, stop) = WorkerDriver::new(0, &wh, limit.unwrap_or(1_000_000), Duration::from_millis(timeout), factories, initial);
         let cview = driver.counter_view();
         let cw = Arc::new(CW(AtomicUsize::new(0)));
         let waker = Waker::from(cw.clone());
@@ -288,6 +293,7 @@ impl Case {
             n,
             timeout,
             prompt,
+            limit,
             driver: Some(driver),
             accept: Some(accept),
             stop: Some(stop),
@@ -324,6 +330,36 @@ impl Case {
 
     fn raw(&self) -> usize {
         self.cview.raw()
+    }
+
+    /// the interests the worker pushed into the accept thread's waker queue since the last call:
+    /// (number of `WorkerAvailable(0)`, number of anything else)
+    fn notifications(&self) -> (usize, usize) {
+        let v = self._wh.drain();
+        (v.iter().filter(|x| **x == Some(0)).count(), v.iter().filter(|x| **x != Some(0)).count())
+    }
+
+    /// ` wq=<k>` suffix + the C02/C03/C04 oracle: a `WorkerAvailable` notification is pushed exactly when a
+    /// release takes the raw counter from above the limit to the limit (`raw_before > limit >= raw_after` over a
+    /// monotone run of releases), never otherwise
+    fn wq_suffix(&self, raw_before: usize, raw_after: usize, judge: bool, what: &str, t3: &mut Vec<(String, String)>) -> String {
+        let Some(limit) = self.limit else { return String::new() };
+        let (k, other) = self.notifications();
+        if judge {
+            // the counter is biased by one: `limit` connections in progress = raw `limit + 1`
+            let expected = (raw_before > limit + 0 && raw_before >= limit + 1 && raw_after <= limit) as usize;
+            if k > expected {
+                for tag in ["C02", "C04", "C03"] {
+                    t3.push((tag.into(), format!("{what}: the worker pushed {k} WorkerAvailable notification(s) although no release crossed the limit (raw counter {raw_before} -> {raw_after}, limit {limit}): the accept thread will mark a saturated worker available")));
+                }
+            } else if k < expected {
+                t3.push(("C03".into(), format!("{what}: a release crossed the limit (raw counter {raw_before} -> {raw_after}, limit {limit}) but no WorkerAvailable notification was pushed")));
+            }
+            if other > 0 {
+                t3.push(("C02".into(), format!("{what}: the worker pushed {other} interest(s) other than WorkerAvailable(0)")));
+            }
+        }
+        format!(" wq={k}")
     }
 
     /// which of the connections still in the channel (as far as the harness knows) have been closed by
@@ -435,7 +471,9 @@ fn oracle_c07(c: &mut Case, evs: &[Evt], stop_handled: bool, t3: &mut Vec<(Strin
                 }
                 // routing and incarnation
                 if c.tokens.get(id) != Some(tok) {
-                    t3.push(("C07".into(), format!("connection c{id} with token {:?} was given to service {tok}", c.tokens.get(id))));
+                    for tag in ["C07", "C01"] {
+                        t3.push((tag.into(), format!("connection c{id} accepted on listener token {:?} was given to the service of token {tok}", c.tokens.get(id))));
+                    }
                 }
                 if c.cur_inc.get(*tok) != Some(inc) {
                     t3.push(("C07".into(), format!("connection c{id} was given to incarnation {inc} of service {tok}, current is {:?}", c.cur_inc.get(*tok))));
@@ -545,11 +583,14 @@ fn env_op(h: &Harness, c: &mut Case, ws: &[&str], t3: &mut Vec<(String, String)>
                 let pos = c.shared.borrow().inflight.iter().position(|(i, _)| *i as usize == id);
                 match pos {
                     Some(p) => {
+                        let before = c.raw();
+                        let _ = c.notifications();
                         let (cid, inf) = c.shared.borrow_mut().inflight.remove(p);
                         drop(inf);
                         c.clients.remove(&cid);
                         c.env_delta -= 1;
-                        "ok".into()
+                        let wq = c.wq_suffix(before, c.raw(), !c.in_poll, "finish", t3);
+                        format!("ok{wq}")
                     }
                     None => "bad-op".into(),
                 }
@@ -568,6 +609,7 @@ fn short(res: &str) -> String {
         ["ok", k, w, _reply] if k.starts_with('s') && w.starts_with("woke=") => format!("{k}/{}", &w[5..]),
         ["ok", w] if w.starts_with("woke=") => format!("closed/{}", &w[5..]),
         ["ok"] => "ok".into(),
+        ["ok", w] if w.starts_with("wq=") => "ok".into(),
         ["refused"] => "refused".into(),
         _ => "bad".into(),
     }
@@ -596,6 +638,7 @@ fn do_poll(h: &Harness, c: &mut Case, acts: Option<Vec<Vec<String>>>, t3: &mut V
         return "bad-op".into();
     }
     let raw_before = c.raw();
+    let _ = c.notifications();
     c.last_raw_seen = raw_before;
     c.env_delta = 0;
     c.shared.borrow_mut().evs.clear();
@@ -671,6 +714,10 @@ fn do_poll(h: &Harness, c: &mut Case, acts: Option<Vec<Vec<String>>>, t3: &mut V
             let released = (raw_before as i64 + c.env_delta - raw_after as i64).max(0) as usize;
             let expect = if done { c.queued.len() } else { released.min(c.queued.len()) };
             let closed = c.probe_closed(expect);
+            if done && !c.queued.is_empty() {
+                // the worker is gone: a connection still open on the client side was neither served nor closed
+                t3.push(("C01".into(), format!("connection(s) {:?} were sent to the worker and are neither served nor closed now that its future has completed (leaked)", c.queued)));
+            }
             // replies
             let mut reps = vec![];
             let mut new_replies = vec![];
@@ -692,8 +739,9 @@ fn do_poll(h: &Harness, c: &mut Case, acts: Option<Vec<Vec<String>>>, t3: &mut V
                 }
             }
             oracle_c06(c, &evs, &closed, done, raw_before, raw_after, &new_replies, t3);
+            let wq = c.wq_suffix(raw_before, raw_after, acts.is_none(), "poll", t3);
             format!(
-                "{acts_s}ev=[{}] ret={} replies=[{}] closed=[{}] raw={}",
+                "{acts_s}ev=[{}] ret={} replies=[{}] closed=[{}] raw={}{wq}",
                 ev_s.join(","),
                 if done { "D" } else { "P" },
                 reps.join(","),
@@ -1735,6 +1783,15 @@ mod srvlevel {
     }
 
     fn run_fault(line: &str) -> (String, String, Vec<String>) {
+        let ws: Vec<&str> = line.split_whitespace().collect();
+        // delay between the kill and the two connections made inside the teardown window (ms)
+        let gap = match kv(&ws, "gap") {
+            None => 150u64,
+            Some(g) => match super::num(g) {
+                Some(g) if g <= 1500 => g as u64,
+                _ => return (line.to_string(), "bad-op".into(), vec![]),
+            },
+        };
         let rt = tokio::runtime::Builder::new_current_thread().enable_all().build().unwrap();
         let mut fails = vec![];
         let obs = rt.block_on(async {
@@ -1770,7 +1827,7 @@ mod srvlevel {
             shared.kill_next.store(true, Ordering::SeqCst);
             let killed = ask(addr, Duration::from_millis(1500)).await;
             let t_kill = Instant::now();
-            tokio::time::sleep(Duration::from_millis(150)).await;
+            tokio::time::sleep(Duration::from_millis(gap)).await;
             // two connections inside the teardown window: one for w1's slot, one for the dead w0's slot
             let r1 = ask(addr, w).await;
             let in_window = t_kill.elapsed() < Duration::from_millis(2000);
@@ -2011,7 +2068,7 @@ mod gen {
     }
 
     /// seeded random histories over the whole op alphabet (both properties)
-    fn random_case(w: &mut dyn Write, rng: &mut Rng, name: &str, prop: &str, nmin: usize, nmax: usize) {
+    fn random_case(w: &mut dyn Write, rng: &mut Rng, name: &str, prop: &str, nmin: usize, nmax: usize, limit: Option<usize>) {
         let n = rng.range(nmin, nmax);
         let timeout = *rng.pick(&[0usize, 500, 1000, 1500, 2000, 3000]);
         let specs: Vec<String> = (0..n)
@@ -2020,7 +2077,8 @@ mod gen {
                 format!("s{i}={}", svc_spec(rng, &s, true))
             })
             .collect();
-        writeln!(w, "case {name} n={n} timeout={timeout} {}", specs.join(" ")).unwrap();
+        let lim = limit.map_or(String::new(), |l| format!(" limit={l}"));
+        writeln!(w, "case {name} n={n} timeout={timeout}{lim} {}", specs.join(" ")).unwrap();
         let stops = prop == "C06" || rng.chance(1, 5);
         let len = rng.range(6, 30);
         let mut conns = 0usize;
@@ -2238,6 +2296,87 @@ mod gen {
         if prop == "C06" {
             writeln!(w, "k-shape").unwrap();
         }
+        if prop == "C08" {
+            // only what C08 needs from this engine: a worker that dies (its service panics) with a slow teardown of its
+            // service, connections made inside the teardown window, the replacement rejoining — on the real Server
+            writeln!(w, "case srvlevel n=1 timeout=0").unwrap();
+            let gaps: &[usize] = if thorough { &[50, 150, 400, 800, 1200] } else { &[150, 600] };
+            for (k, g) in gaps.iter().enumerate() {
+                writeln!(w, "fault f{k} gap={g}").unwrap();
+            }
+            writeln!(w, "fault bad gap=x").unwrap();
+            w.flush().unwrap();
+            return;
+        }
+        if prop == "C01" {
+            // only what C01 needs from this engine: routing by token, taken-but-never-served, dropped without a Stop,
+            // released at shutdown / nothing leaked (worker level), and connections around a worker fault (server level)
+            writeln!(w, "case srvlevel n=1 timeout=0").unwrap();
+            writeln!(w, "fault f0").unwrap();
+            c07_exhaustive(&mut *w, &mut rng, 1, if thorough { 4 } else { 3 }, "x1_");
+            c07_arrivals(&mut *w, &mut rng, 2, 1);
+            if thorough {
+                c07_exhaustive(&mut *w, &mut rng, 2, 3, "x2_");
+                c07_arrivals(&mut *w, &mut rng, 3, 1);
+            }
+            let mut k = 0;
+            for slots in [vec![], vec![1usize], vec![4], vec![1, 4]] {
+                for t in [0usize, 1000] {
+                    for graceful in [true, false] {
+                        for q in [1usize, 2] {
+                            c06_case(&mut *w, &format!("s{k}"), &slots, t, graceful, q, None, 1000);
+                            k += 1;
+                        }
+                    }
+                }
+            }
+            for c in 0..(if thorough { 3000 } else { 300 }) {
+                random_case(&mut *w, &mut rng, &format!("r{c}"), "C06", 1, 3, None);
+            }
+            w.flush().unwrap();
+            return;
+        }
+        if prop == "C02" {
+            // only what C02 (and C03/C04) need from this engine: the notifications the REAL worker pushes into the accept
+            // thread's waker queue — a worker at / around its limit whose service fails its readiness check and is rebuilt
+            let mut k = 0;
+            for limit in 1..=3usize {
+                for m in (limit.saturating_sub(1))..=(limit + 1) {
+                    for extra in 0..=1usize {
+                        for fpend in 0..=1usize {
+                            let script: String = "R".repeat(2 + m + extra) + "E";
+                            writeln!(w, "case k{k} n=1 timeout=1000 limit={limit} s0={script}/{fpend}+.").unwrap();
+                            k += 1;
+                            for _ in 0..m {
+                                writeln!(w, "conn 0").unwrap();
+                            }
+                            for _ in 0..(extra + 3 + fpend) {
+                                writeln!(w, "poll").unwrap();
+                            }
+                            for i in 0..m {
+                                writeln!(w, "finish {i}").unwrap();
+                                writeln!(w, "poll").unwrap();
+                            }
+                            // a graceful stop releasing queued connections across the limit
+                            for _ in 0..(limit + 1) {
+                                writeln!(w, "conn 0").unwrap();
+                            }
+                            writeln!(w, "stop g").unwrap();
+                            writeln!(w, "poll").unwrap();
+                            writeln!(w, "advance 1000").unwrap();
+                            writeln!(w, "poll").unwrap();
+                        }
+                    }
+                }
+            }
+            for c in 0..(if thorough { 3000 } else { 300 }) {
+                let limit = rng.range(1, 3);
+                random_case(&mut *w, &mut rng, &format!("r{c}"), "C02", 1, 2, Some(limit));
+            }
+            writeln!(w, "case bad n=1 timeout=0 limit=0").unwrap();
+            w.flush().unwrap();
+            return;
+        }
         if prop == "C07" {
             // server level (real Server, real StreamService adapter): readiness that changes while the worker is idle,
             // and a worker that dies with a slow service teardown (C08 / C01, run with this engine)
@@ -2260,7 +2399,7 @@ mod gen {
             }
             let nr = if thorough { 20000 } else { 1500 };
             for c in 0..nr {
-                random_case(&mut *w, &mut rng, &format!("r{c}"), prop, if c % 2 == 0 { 3 } else { 1 }, 3);
+                random_case(&mut *w, &mut rng, &format!("r{c}"), prop, if c % 2 == 0 { 3 } else { 1 }, 3, None);
             }
         } else {
             // server level: the real public API in real time (a few scenarios; more in the thorough tier)
@@ -2314,7 +2453,7 @@ mod gen {
             c06_enumerate(&mut *w, thorough);
             let nr = if thorough { 20000 } else { 1500 };
             for c in 0..nr {
-                random_case(&mut *w, &mut rng, &format!("r{c}"), prop, 1, 3);
+                random_case(&mut *w, &mut rng, &format!("r{c}"), prop, 1, 3, None);
             }
         }
         w.flush().unwrap();
